@@ -72,9 +72,8 @@ def rule_pinball(ctx):
     ytau, ytest, taus = f.params
     wh = calls_in(f.node, "where")
     rets = [s for s in f.body if isinstance(s, ast.Return)]
-    if len(wh) != 1 or len(rets) != 1 or rets[0].value is not wh[0]:
-        raise AnalysisError("quantile_score does not return a single np.where(...)")
-    cond, a, b = wh[0].args
+    if len(wh) != 1 or len(rets) != 1 or len(wh[0].args) != 3 or wh[0].keywords:
+        raise AnalysisError("quantile_score does not return one value built from one np.where(...)")
     e, o, tau = sp.symbols("e o tau", real=True)
     # straight-line locals inlined; reshape/asarray are identities on one element
     env = {}
@@ -90,11 +89,18 @@ def rule_pinball(ctx):
     def term(node):
         vals = {ytau: e, ytest: o, taus: tau}
 
+        busy = set()
+
         def rec(n):
             if isinstance(n, ast.Name) and n.id in vals:
                 return vals[n.id]
             if isinstance(n, ast.Name) and n.id in env:
                 src = env[n.id]
+                if n.id in busy and any(isinstance(x_, ast.Name) and x_.id == n.id for x_ in ast.walk(src)) \
+                        and not (isinstance(src, ast.Call) and isinstance(src.func, ast.Attribute) and src.func.attr == "reshape") \
+                        and not (isinstance(src, ast.Call) and dotted(src.func) in ("np.asarray", "np.array")):
+                    raise Unsupported("%s is re-bound in terms of itself" % n.id)
+                busy.add(n.id)
                 # x = x.reshape(...) / np.asarray(x): identity on the element
                 if isinstance(src, ast.Call) and isinstance(src.func, ast.Attribute) and src.func.attr == "reshape":
                     return rec(src.func.value)
@@ -117,9 +123,11 @@ def rule_pinball(ctx):
                 if rel is None:
                     raise Unsupported(norm(n))
                 return rel(rec(n.left), rec(n.comparators[0]))
+            if n is wh[0]:
+                return sp.Piecewise((rec(n.args[1]), rec(n.args[0])), (rec(n.args[2]), True))
             raise Unsupported(norm(n))
         return rec(node)
-    c, ta, tb = term(cond), term(a), term(b)
+    whole = term(rets[0].value)
     d = sp.Symbol("d", positive=True)
     # below: e = o - d ; above: e = o + d ; equal: e = o
     below = {e: o - d}
@@ -127,12 +135,11 @@ def rule_pinball(ctx):
     equal = {e: o}
 
     def pick(sub):
-        cv = sp.simplify(c.subs(sub))
-        if cv == sp.true:
-            return ta.subs(sub)
-        if cv == sp.false:
-            return tb.subs(sub)
-        raise AnalysisError("np.where condition %s undecided under %s" % (c, sub))
+        v_ = sp.piecewise_fold(whole.subs(sub))
+        v_ = sp.simplify(v_)
+        if v_.has(sp.Piecewise):
+            raise AnalysisError("np.where condition of %s undecided under %s" % (whole, sub))
+        return v_
     vb = sp.simplify(pick(below))
     va = sp.simplify(pick(above))
     ve = sp.simplify(pick(equal))
